@@ -20,7 +20,7 @@ def slow_scenarios(rng, p):
     return out
 
 
-def make_corpus(c, nflow, npar, nscen, seed_off=0, par_exec=0, features=None, progs=None, tag=""):
+def make_corpus(c, nflow, npar, nscen, seed_off=0, par_exec=0, features=None, progs=None, tag="", autoins=False):
     render.HARNESS_OVERRIDE = c.harness_dir()
     """Renders programs into a scratch module. Returns (root, programs by package, jobs)."""
     rng = random.Random(c.seed * 1000003 + seed_off)
@@ -39,6 +39,8 @@ def make_corpus(c, nflow, npar, nscen, seed_off=0, par_exec=0, features=None, pr
         pk["pf"] = flows
     if pars:
         pk["pp"] = pars
+    for p in flows + pars:
+        p["autoins"] = autoins          # generated with -auto-instrument (the monitor judges the implied names)
     render.write_module(root, pk)
     jobs, k = [], 0
     for p in flows + pars:
@@ -132,7 +134,8 @@ def pipeline(c, nflow, npar, nscen, seed_off=0, par_exec=0, race=False, progs=No
         c.violation(prop, what, obj)
 
     cff = c.build_cff()
-    root, pk, jobs = make_corpus(c, nflow, npar, nscen, seed_off, par_exec, progs=progs, tag="" if mode == "base" and not cff_extra else "-" + mode + "".join(cff_extra))
+    root, pk, jobs = make_corpus(c, nflow, npar, nscen, seed_off, par_exec, progs=progs, tag="" if mode == "base" and not cff_extra else "-" + mode + "".join(cff_extra),
+                                  autoins="-auto-instrument" in cff_extra)
     if info is not None:
         info.update(root=root, jobs=jobs, pk=pk)
     byname = {p["name"]: p for ps in pk.values() for p in ps}
